@@ -70,8 +70,10 @@ def _next_sort_index() -> int:
 def reset_event_counter() -> None:
     """Reset the global event counter to zero.
 
-    Called by Simulation.__init__() so each simulation run gets
-    deterministic sort indices starting from 0.
+    Not called by the library: sort indices only need to be monotonic in
+    creation order, and resetting between the creation of two events that
+    end up in the same simulation would reverse their tie-break order.
+    Kept for callers that want event ids to restart in a fresh setup.
     """
     global _global_event_counter
     _global_event_counter = count()
